@@ -379,7 +379,11 @@ const TEXTS: &[&str] = &[
     "true", "false", "0", "1", "-1", "3.14", "1e3", "null", "NaN", "2024-09-28", "yes",
 ];
 const CDATAS: &[&str] = &["", "x", "<b>not an element</b>", " ", "]]", "&amp;", "a]]b", "-->", "?>", "текст"];
-const COMMENTS: &[&str] = &["", " c ", "<x/>", "<x a='1'>", "- - ", "]]>", "?>", "&", "текст", " <r> "];
+const COMMENTS: &[&str] = &[
+    "", " c ", "<x/>", "<x a='1'>", "- - ", "]]>", "?>", "&", "текст", " <r> ",
+    // comments other tools give a meaning to (sample generators, editors, build systems)
+    "Optional:", "Zero or more repetitions:", "1 or more repetitions:", " TODO ", "#region", " xml-model ", " prettier-ignore ", "[if IE]>x<![endif]",
+];
 const PIS: &[&str] = &["p", "p d", "php echo '<x/>'; ", "x-y a=\"1\"", "p >", "p <r>"];
 const VALUES: &[&str] = &["default", "preserve", "true", "false", "0", "&e;", "&nbsp;", "a&co;b", "", "1", "v", "a b", "&amp;", "&lt;", ">", "x=y", "/>", "текст", " ", "&#10;", "--", "]]>"];
 const DECLS: &[&str] = &[
